@@ -6,6 +6,7 @@ from pdb2sql import StructureSimilarity as SS
 
 ID = 'C12'
 LEVEL = 'proof'
+CLUSTER = 'Z'
 GEN_UNITS = ['compute_CapriClass', 'compute_DockQScore']
 RULE = ('CAPRI: every cell of the arrangement induced by the thresholds (7 values per coordinate: each threshold and one '
         'point in each open interval between/beyond them; 343 cells, exhaustive) + the doubles adjacent to every threshold '
